@@ -20,6 +20,7 @@ RULE = (
     "self-intersecting / multiply-connected polygons, unnamed film, duplicate names, probe point outside the film or in a hole) x magnitude "
     "{1, 1e-3, 1e-6} x 3 devices x output {None, file, file in a new sub-directory}; non-trivial = magnitude <= 1e-3 or a time-dependent defect; "
     "all classes appear in every run (histogram in the evidence); in addition generated problems: a generated device (box/ellipse, 2..3 terminals, 0..1 holes, any units), options (adaptive, screening, save interval), output mode and a defect class at a magnitude drawn log-uniformly from 1e-6..1, kept only if the same problem without the defect is accepted"
+    "; defect class terminal_point_contact"
 )
 ASSUMPTIONS = [
     "rejection = any exception raised by the constructor / tdgl.solve call; acceptance = the call returns",
